@@ -1,2 +1,2 @@
 #!/bin/bash
-exec "$(dirname "${BASH_SOURCE[0]}")/run_legs.sh" C19 12 16 1
+exec "$(dirname "${BASH_SOURCE[0]}")/run_legs.sh" C19 8 16 1
